@@ -22,6 +22,10 @@ def _log_path():
     return os.path.join(os.environ["VF_C14_DIR"], "log-%d.jsonl" % os.getpid())
 
 
+class ProbeFailure(Exception):
+    pass
+
+
 _probe = None
 _log_lock = threading.Lock()
 
@@ -33,11 +37,15 @@ def get_probe():
         from term_image import utils
 
         @utils.lock_tty
-        def probe(tag, depth, hold):
+        def probe(tag, depth, hold, fail=False):
             t0 = time.monotonic_ns()
             lock0 = id(utils._tty_lock), type(utils._tty_lock).__module__.split(".")[0] + "." + type(utils._tty_lock).__name__
             if depth:
-                probe(tag, depth - 1, hold)  # re-entrant call from the same thread
+                try:
+                    probe(tag, depth - 1, hold, fail)  # re-entrant call from the same thread
+                except ProbeFailure:
+                    if depth % 2:
+                        raise  # failures cross some of the nesting levels
             if hold:
                 time.sleep(hold)
             lock1 = id(utils._tty_lock)
@@ -46,6 +54,8 @@ def get_probe():
             with _log_lock:
                 with open(_log_path(), "a") as f:
                     f.write(json.dumps(rec) + "\n")
+            if fail and not depth:
+                raise ProbeFailure(tag)  # a synchronized call that ends with an exception
 
         _probe = probe
     return _probe
@@ -129,6 +139,12 @@ def _one_op(rnd, probe, tag, queries, compound_ok):
         compound(tag)
     elif queries and r < 0.42:
         bystander(tag)
+    elif r < 0.5:
+        # synchronized calls may fail; the thread goes on using the terminal afterwards
+        try:
+            probe(tag, rnd.choice([0, 1, 2]), 0, True)
+        except ProbeFailure:
+            pass
     else:
         probe(tag, rnd.choice([0, 0, 1, 2]), rnd.choice([0, 0.0002, 0.001]))
 
